@@ -386,6 +386,34 @@ def scenarios():
                 steps.append(call('c2', pr))
         scen('failure-then-looks/stylesheet/%s' % holder, _w([s0, s1, s2], caches=['k0']), steps)
 
+    # 3b'. the host changes the CONTENTS of list- / dict-valued options it keeps in its settings, in place
+    def deep(cfg, key, value):
+        return {'op': 'edit_cfg', 'cfg': cfg, 'path': ['options', key], 'value': value, 'inplace': True, 'deep': True}
+
+    for holder in ('dict', 'Config'):
+        c = {'id': 'c0', 'holder': holder, 'options': {'inlineElements': ['span', 'em'], 'output.booleanAttributes': ['disabled'], 'output.formatSkip': ['html'],
+                                                         'output.formatForce': ['body'], 'comment.enabled': True, 'comment.trigger': ['id', 'class'],
+                                                         'markup.attributes': {'class': 'klass'}, 'markup.valuePrefix': {'class': 'pfx'}}}
+        o = {'id': 'c1', 'holder': 'dict'}
+        pr = 'div#a.b>span+em+p[disabled foo]+body>html>p'
+        steps = [call('c0', pr), call('c1', pr)]
+        for key, v in (('inlineElements', ['span', 'em', 'p']), ('inlineElements', ['em']), ('inlineElements', []), ('output.booleanAttributes', ['disabled', 'foo']),
+                       ('output.booleanAttributes', ['foo']), ('output.formatSkip', ['html', 'div']), ('output.formatSkip', []), ('output.formatForce', ['body', 'p']),
+                       ('output.formatForce', []), ('comment.trigger', ['id']), ('comment.trigger', ['class', 'disabled']), ('markup.attributes', {'class': 'k2', 'foo': 'bar'}),
+                       ('markup.attributes', {}), ('markup.valuePrefix', {'class': 'p2'}), ('inlineElements', ['span', 'em'])):
+            steps += [deep('c0', key, v), call('c0', pr), call('c1', pr)]
+        scen('option-lists-changed-in-place/markup/%s' % holder, _w([c, o]), steps)
+        c = {'id': 'c0', 'holder': holder, 'type': 'stylesheet', 'options': {'stylesheet.keywords': ['auto', 'inherit'], 'stylesheet.unitless': ['z-index', 'zoom'],
+                                                                              'stylesheet.unitAliases': {'p': '%', 'e': 'em'}}}
+        o = {'id': 'c1', 'holder': 'dict', 'type': 'stylesheet'}
+        pr = 'm:a+z10+zom2+w10p+h5e+lh2+p:i'
+        steps = [call('c0', pr), call('c1', pr)]
+        for key, v in (('stylesheet.keywords', ['auto']), ('stylesheet.keywords', []), ('stylesheet.keywords', ['inherit', 'auto', 'all']), ('stylesheet.unitless', ['zoom']),
+                       ('stylesheet.unitless', []), ('stylesheet.unitless', ['z-index', 'zoom', 'line-height']), ('stylesheet.unitAliases', {'p': 'pt'}),
+                       ('stylesheet.unitAliases', {}), ('stylesheet.unitAliases', {'p': '%', 'e': 'ex', 'x': 'vw'})):
+            steps += [deep('c0', key, v), call('c0', pr), call('c1', pr)]
+        scen('option-lists-changed-in-place/stylesheet/%s' % holder, _w([c, o]), steps)
+
     # 3c. option flip under failure: for every documented option / variable / snippet with a known visible effect
     #     (the witness triples of the C20 profile: key, two values, abbreviation), a call under one value fails at
     #     evenly spaced points (callee failure F5 in both placement modes and flavours, failing editor callback F3),
